@@ -4,7 +4,7 @@
     both removal modes ([reach_adj]).  Three facets are FALSE of the code because baseline tests pin the
     defective values; they are stated, refuted with a witness and proved in the weaker form that does hold. *)
 From DynVerif Require Import Base Graph Spec.
-From DynVerif.proofs Require Import CoreInv QueryFacts.
+From DynVerif.proofs Require Import CoreInv QueryFacts QueryFacts2.
 
 Theorem C02_reach : forall dir rem cs, InvAdj (run_calls (empty_graph dir rem) cs).
 Proof. intros. apply InvAdj_run, InvAdj_init. Qed.
@@ -95,6 +95,63 @@ Print Assumptions C02_selfloop_refuted.
 Theorem C02_density_t_refuted : forall g t, density g (Some t) = (0, 1).
 Proof. reflexivity. Qed.
 Print Assumptions C02_density_t_refuted.
+
+(** size / number_of_interactions(t): the number of edges of the static graph -- always on DynDiGraph, and on DynGraph
+    when no self-loop is present at t (finding K-C02-2); the handshake lemma behind it *)
+Theorem C02_size : forall g t, InvAdj g ->
+  (g_dir g = true -> size g t = Z.of_nat (length (static_edges g t)) /\
+                     sumZ (map snd (degree_dict g 0 None t)) = 2 * Z.of_nat (length (static_edges g t)) /\
+                     sumZ (map snd (degree_dict g 1 None t)) = Z.of_nat (length (static_edges g t)) /\
+                     sumZ (map snd (degree_dict g 2 None t)) = Z.of_nat (length (static_edges g t))) /\
+  (g_dir g = false -> no_selfloop g t -> size g t = Z.of_nat (length (static_edges g t)) /\
+                     sumZ (map snd (degree_dict g 0 None t)) = 2 * Z.of_nat (length (static_edges g t))).
+Proof.
+  intros g t HI. split.
+  - intros Hd. split; [apply size_directed; assumption|]. split; [apply degree_sum_directed; assumption|].
+    split; [apply in_degree_sum; assumption|apply out_degree_sum; assumption].
+  - intros Hd Hn. split; [apply size_undirected; assumption|apply degree_sum_undirected; assumption].
+Qed.
+Print Assumptions C02_size.
+
+(** degree dicts: all nodes without nbunch; with nbunch only listed nodes of the graph (unknown ones ignored) *)
+Theorem C02_degree_dict : forall g kind t,
+  map fst (degree_dict g kind None t) = node_ids g /\
+  forall nb n d, In (n, d) (degree_dict g kind (Some nb) t) -> In n nb /\ has_node_flat g n = true.
+Proof. intros. split; [apply degree_dict_all|intros; eapply degree_dict_nbunch; eauto]. Qed.
+Print Assumptions C02_degree_dict.
+
+(** dn.density on the flattened graph, dn.degree_histogram, dn.non_neighbors, dn.non_interactions (undirected),
+    get_node_snapshots, dn.is_empty *)
+Theorem C02_density_flat : forall g, density g None =
+  (let n := Z.of_nat (length (g_nodes g)) in let m := size g None in
+   if (m =? 0) || (n <=? 1) then (0, 1) else ((if g_dir g then m else 2 * m), n * (n - 1))).
+Proof. exact density_flat. Qed.
+Print Assumptions C02_density_flat.
+Theorem C02_degree_histogram : forall g t i, 0 <= i <= maxZ 0 (map snd (degree_dict g 0 None t)) ->
+  nth (Z.to_nat i) (degree_histogram g t) (-1) = Z.of_nat (length (filter (fun nd => snd nd =? i) (degree_dict g 0 None t))).
+Proof. exact degree_histogram_spec. Qed.
+Print Assumptions C02_degree_histogram.
+Theorem C02_non_neighbors : forall g n t x, InvAdj g -> has_node_flat g n = true ->
+  forall l, non_neighbors g n t = Some l ->
+  (In x l <-> In x (node_ids g) /\ x <> n /\ has_interaction g n x t = false /\ has_interaction g x n t = false).
+Proof. exact non_neighbors_spec. Qed.
+Print Assumptions C02_non_neighbors.
+Theorem C02_non_interactions : forall g t a b, InvAdj g -> g_dir g = false ->
+  (In (a, b) (non_interactions g t) -> In a (node_ids g) /\ In b (node_ids g) /\ a <> b /\ has_interaction g a b t = false) /\
+  (In a (node_ids g) -> In b (node_ids g) -> a <> b -> has_interaction g a b t = false ->
+     In (a, b) (non_interactions g t) \/ In (b, a) (non_interactions g t)) /\
+  NoDup (non_interactions g t).
+Proof.
+  intros g t a b HI Hd. destruct (non_interactions_spec_alt g t a b HI Hd) as (H1 & H2).
+  split; [exact H1|]. split; [exact H2|apply non_interactions_NoDup; assumption].
+Qed.
+Print Assumptions C02_non_interactions.
+Theorem C02_node_snapshots : forall g n t, In t (node_snapshots g n) <-> In t (snapshot_ids g) /\ has_node g n (Some t) = true.
+Proof. exact node_snapshots_spec. Qed.
+Print Assumptions C02_node_snapshots.
+Theorem C02_is_empty : forall g, InvAdj g -> (is_empty g = true <-> forall u v, has_interaction g u v None = false).
+Proof. exact is_empty_spec_alt. Qed.
+Print Assumptions C02_is_empty.
 
 (** number_of_interactions(u, v, t) *)
 Theorem C02_number_of_interactions_pair : forall g u v t,
